@@ -36,8 +36,14 @@ def _label(events, start, bad):
             delivered[e["c"]] = delivered.get(e["c"], 0) + len(e["out"])
     e = events[bad]
     c = e.get("c", 1)
-    kinds = st["chans"][c - 1]["kinds"] if 1 <= c <= len(st["chans"]) else []
+    ch = st["chans"][c - 1] if 1 <= c <= len(st["chans"]) else {"kinds": [], "ids": []}
+    kinds, ids = ch["kinds"], ch["ids"]
     k = delivered.get(c, 0)
+    for got in e.get("out", []):          # skip what was handed over correctly by this very event
+        if k < len(ids) and ids[k] == got:
+            k += 1
+        else:
+            break
     kind = kinds[k] if k < len(kinds) else (kinds[-1] if kinds else "?")
     return kind, cut
 
